@@ -344,6 +344,7 @@ func runC03(c c03Case, rec *ev.Rec) error {
 		// rebuild the reference model, which then adopts the directory the killed child left.
 		// Deletions are judged here (a sample covered by an acknowledged deletion must not come
 		// back; the range of a deletion in flight may or may not be applied).
+		knownTrigger := false
 		hasDelete := false
 		for j := 0; j <= acked.I+1 && j < len(c.H.Ops); j++ {
 			if c.H.Ops[j].K == "delete" {
@@ -388,6 +389,12 @@ func runC03(c c03Case, rec *ev.Rec) error {
 			if hasDelete {
 				rec.Class("crash-runs-with-delete")
 			}
+			if r2.AnyKnownTrigger() {
+				// the history contains the trigger of a listed finding of the history runner: the
+				// ack-file comparison (made after one more clean restart) cannot attribute it
+				knownTrigger = true
+				rec.Class("ack-comparison-skipped-known-trigger")
+			}
 		}
 		db, oerr := tsdb.Open(dir, promslog.NewNopLogger(), prometheus.NewRegistry(), c.H.Cfg.Options(), nil)
 		if oerr != nil {
@@ -417,7 +424,7 @@ func runC03(c c03Case, rec *ev.Rec) error {
 		}
 		// Ack-file comparison (independent of the re-execution above); it knows nothing of the
 		// listed delete findings, so workloads with a delete are judged by the model alone.
-		if !hasDelete {
+		if !hasDelete && !knownTrigger {
 			ackedPts := map[string]ackPoint{}
 			for _, p := range acked.Pts {
 				ackedPts[fmt.Sprintf("%d/%d", p.S, p.T)] = p
